@@ -1001,7 +1001,7 @@ func C17() *kit.Spec {
 		SimTimeNote: "none: no timers; logical steps = executed operations",
 		NumRuns: func(tier string) int {
 			if tier == "thorough" {
-				return 3 * 48 * 48 * 2 * 12
+				return 3 * 48 * 48 * 2 * 300
 			}
 			return 3 * 48 * 48 * 2 * 3
 		},
